@@ -65,7 +65,11 @@ func (f *NameField) GenEncodeInto() (string, error) {
 
 func (f *NameField) GenReadFrom() (string, error) {
 	var g strErrBuf
-	const Temp = `value.{{.Name}} = make(enc.Name, l/2+1)
+	const Temp = `if l > enc.TLNum(reader.Length()-reader.Pos()) {
+		// the announced length exceeds what is left to read: do not allocate for it
+		return nil, enc.ErrFailToParse{TypeNum: typ, Err: io.ErrUnexpectedEOF}
+	}
+	value.{{.Name}} = make(enc.Name, l/2+1)
 	startName := reader.Pos()
 	endName := startName + int(l)
 	for j := range value.{{.Name}} {
